@@ -54,6 +54,7 @@ func ExtractTypeNameMap(v interface{}) (map[string]reflect.Type, map[string]stri
 	value := reflect.ValueOf(v)
 	typMap := make(map[string]reflect.Type)
 	nameMap := make(map[string]string)
+	visited := make(map[uintptr]bool)
 	ExtractValue(value, func(v reflect.Value) bool {
 		if !v.IsValid() {
 			return false
@@ -61,7 +62,16 @@ func ExtractTypeNameMap(v interface{}) (map[string]reflect.Type, map[string]stri
 		typ := v.Type()
 		name := TypeName(typ)
 		if _, ok := typMap[name]; ok {
-			return false
+			// another value of a known type holds nothing new, unless its elements are
+			// interfaces, whose dynamic types differ from value to value
+			if !holdsInterface(typ) || v.Len() == 0 || visited[v.Pointer()] {
+				return false
+			}
+			visited[v.Pointer()] = true
+			return true
+		}
+		if holdsInterface(typ) && v.Len() > 0 {
+			visited[v.Pointer()] = true
 		}
 
 		typMap[name] = typ
@@ -97,6 +107,17 @@ func ExtractTypeNameMap(v interface{}) (map[string]reflect.Type, map[string]stri
 	}
 
 	return typMap, nameMap
+}
+
+// holdsInterface check whether typ is a slice or map with interface elements or keys
+func holdsInterface(typ reflect.Type) bool {
+	switch typ.Kind() {
+	case reflect.Slice:
+		return typ.Elem().Kind() == reflect.Interface
+	case reflect.Map:
+		return typ.Elem().Kind() == reflect.Interface || typ.Key().Kind() == reflect.Interface
+	}
+	return false
 }
 
 // remove pointer '*' and right bracket ']'
